@@ -124,10 +124,11 @@ Emit(k) ==
   LET c == CaseOf(k)
       e0 == Extract(c.h, c.ol, Groups, {})
       alts == {[devs |-> S, exp |-> Extract(c.h, c.ol, Groups, S)] : S \in DevSets}
-  IN /\ LawRoleBySynAck(c.h.flags)
-     /\ LawLayoutStopsAtEol(c.ol)
-     /\ Len(c.h.opts) <= 40 /\ Len(c.h.opts) % 4 = 0
-     /\ PrintT("REPLAY " \o ToJson([fam |-> Fam, k |-> k, frame |-> Frame(c.link, c.h), exp |-> e0,
+  IN \/ Len(c.h.opts) > 40                 \* does not fit a TCP header (data offset <= 15): not a case
+     \/ /\ LawRoleBySynAck(c.h.flags)
+        /\ LawLayoutStopsAtEol(c.ol)
+        /\ Len(c.h.opts) % 4 = 0
+        /\ PrintT("REPLAY " \o ToJson([fam |-> Fam, k |-> k, frame |-> Frame(c.link, c.h), exp |-> e0,
                                       alts |-> SetToSeq({a \in alts : a.exp # e0})]))
 
 Mine(s) == {j \in 0..((NOf - 1 - Offset) \div Stride) : j % Shards = s}
